@@ -23,6 +23,7 @@ use mithril_common::entities::{
     SignedEntityTypeDiscriminants as D, SignerWithStake, SingleSignature, SlotNumber, TimePoint,
 };
 use mithril_common::messages::{RegisterSignatureMessageHttp, SignedEntityTypeMessage, SignerMessagePart};
+use mithril_common::crypto_helper::{ProtocolInitializer, ProtocolSignerVerificationKeyForConcatenation};
 use mithril_common::protocol::SignerBuilder;
 use mithril_common::test::builder::MithrilFixtureBuilder;
 use mithril_protocol_config::model::{MithrilNetworkConfigurationForEpoch, SignedEntityTypeConfiguration};
@@ -82,6 +83,9 @@ mod test_extensions {
             Closed,
             Fail,
             Drop,
+            /// recorded (last registration of a party wins, as the real aggregator's store) but
+            /// answered with a failure status
+            Ambig,
         }
         #[derive(Clone, Copy, PartialEq, Eq, Debug)]
         pub enum PubMode {
@@ -101,10 +105,16 @@ mod test_extensions {
             pub down: bool,
             pub reg_mode: RegMode,
             pub pub_mode: PubMode,
+            /// status codes of this tick: failure answers (register-signer Fail/Ambig,
+            /// register-signatures Clean/Ambig) and the success answer of register-signatures
+            pub reg_fail_code: u16,
+            pub pub_fail_code: u16,
+            pub pub_ok_code: u16,
             /// every register-signatures request received (with the mode it was answered with)
             pub sig_log: Vec<(RegisterSignatureMessageHttp, PubMode)>,
-            /// every register-signer request received: (recording epoch in the message, signer, recorded?)
-            pub reg_log: Vec<(u64, SignerMessagePart, bool)>,
+            /// every register-signer request received, failing ones included:
+            /// (recording epoch in the message, signer, mode it was answered in)
+            pub reg_log: Vec<(u64, SignerMessagePart, RegMode)>,
         }
         impl VStore {
             pub fn new() -> Self {
@@ -116,6 +126,9 @@ mod test_extensions {
                     down: false,
                     reg_mode: RegMode::Open,
                     pub_mode: PubMode::Ok,
+                    reg_fail_code: 500,
+                    pub_fail_code: 500,
+                    pub_ok_code: 201,
                     sig_log: vec![],
                     reg_log: vec![],
                 }
@@ -234,9 +247,9 @@ mod test_extensions {
             let mode = s.pub_mode;
             s.sig_log.push((message, mode));
             match mode {
-                PubMode::Ok => StatusCode::CREATED.into_response(),
+                PubMode::Ok => StatusCode::from_u16(s.pub_ok_code).unwrap().into_response(),
                 PubMode::Gone => StatusCode::GONE.into_response(),
-                PubMode::Clean | PubMode::Ambig => StatusCode::INTERNAL_SERVER_ERROR.into_response(),
+                PubMode::Clean | PubMode::Ambig => StatusCode::from_u16(s.pub_fail_code).unwrap().into_response(),
             }
         }
 
@@ -249,17 +262,20 @@ mod test_extensions {
                 operational_certificate: message.operational_certificate,
                 kes_evolutions: message.kes_evolutions,
             };
-            match s.reg_mode {
+            let mode = s.reg_mode;
+            s.reg_log.push((*message.epoch, signer.clone(), mode));
+            let fail = StatusCode::from_u16(s.reg_fail_code).unwrap();
+            match mode {
                 RegMode::Closed => StatusCode::from_u16(550).unwrap().into_response(),
-                RegMode::Fail => StatusCode::INTERNAL_SERVER_ERROR.into_response(),
-                RegMode::Drop => {
-                    s.reg_log.push((*message.epoch, signer, false));
-                    StatusCode::CREATED.into_response()
-                }
-                RegMode::Open => {
-                    s.reg_log.push((*message.epoch, signer.clone(), true));
-                    s.regs.entry(*message.epoch).or_default().push(signer);
-                    StatusCode::CREATED.into_response()
+                RegMode::Fail => fail.into_response(),
+                RegMode::Drop => StatusCode::CREATED.into_response(),
+                RegMode::Open | RegMode::Ambig => {
+                    // the last registration of a party for an epoch wins (mithril-aggregator
+                    // signer_registration_store: insert or replace)
+                    let l = s.regs.entry(*message.epoch).or_default();
+                    l.retain(|p| p.party_id != signer.party_id);
+                    l.push(signer);
+                    if mode == RegMode::Open { StatusCode::CREATED.into_response() } else { fail.into_response() }
                 }
             }
         }
@@ -287,6 +303,11 @@ struct Tick {
     down: bool,
     reg: RegMode,
     pubm: PubMode,
+    /// status codes of the failure / success answers of this tick (environment only: the model knows
+    /// the class of the answer, not its code)
+    reg_fail_code: u16,
+    pub_fail_code: u16,
+    pub_ok_code: u16,
     /// other fixture signers (indices >= 1) the aggregator records during this tick, under its
     /// recording epoch — environment only, invisible to the model
     others: Vec<usize>,
@@ -299,8 +320,9 @@ enum Ev {
 
 struct Scenario {
     kind: String,
-    /// Some(step): CardanoTransactions is enabled too (security parameter 0)
-    tx_step: Option<u64>,
+    /// per network-configuration epoch (GET /protocol-configuration/{epoch}): Some(step) =
+    /// CardanoTransactions is enabled with that step (security parameter 0)
+    cfgs: Vec<Option<u64>>,
     e0: u64,
     lucky: Vec<bool>, // by config epoch = recording epoch of the key created with it
     events: Vec<Ev>,
@@ -333,12 +355,18 @@ fn gen_scenario(rng: &mut Rng, n_signers: usize, thorough: bool) -> Scenario {
     let mut agg = 0u64;
     let mut events = vec![];
     let mut ticks = 0usize;
+    // the registration round is often not yet usable when the signer first sees a new epoch: the
+    // first attempts of the epoch fail in one mode, then the round opens
+    let mut early_fail: (u64, RegMode) = (0, RegMode::Open);
     while ticks < n_ticks {
         if ticks > 0 && rng.chance(1, restart_den) {
             events.push(Ev::Restart);
         }
         if change_at.contains(&ticks) {
             epoch += if rng.chance(1, 12) { 2 } else { 1 };
+            if flavour != 0 && flavour != 1 && rng.chance(1, 3) {
+                early_fail = (rng.range(2, 4), *rng.pick(&[RegMode::Closed, RegMode::Closed, RegMode::Fail, RegMode::Ambig]));
+            }
         }
         if rng.chance(1, 3) {
             imm += rng.range(1, 3);
@@ -353,10 +381,18 @@ fn gen_scenario(rng: &mut Rng, n_signers: usize, thorough: bool) -> Scenario {
         agg = view;
         let down = rng.chance(1, fault_den * 2);
         let reg = if (flavour == 2 || flavour >= 4) && rng.chance(1, fault_den) {
-            *rng.pick(&[RegMode::Closed, RegMode::Closed, RegMode::Fail, RegMode::Drop])
+            *rng.pick(&[RegMode::Closed, RegMode::Closed, RegMode::Fail, RegMode::Drop, RegMode::Ambig])
+        } else if early_fail.0 > 0 {
+            early_fail.0 -= 1;
+            early_fail.1
         } else {
             RegMode::Open
         };
+        // status codes: client errors, server errors (550 is special for register-signer only) and
+        // "unhandled" 2xx codes are all failures; 201 and 202 both acknowledge a signature
+        let reg_fail_code = *rng.pick(&[500u16, 500, 503, 400, 409, 412, 200, 202, 551]);
+        let pub_fail_code = *rng.pick(&[500u16, 500, 503, 400, 404, 409, 412, 550, 200, 204]);
+        let pub_ok_code = *rng.pick(&[201u16, 201, 202]);
         let pubm = if (flavour == 1 || flavour >= 3) && rng.chance(1, fault_den.min(6)) {
             *rng.pick(&[PubMode::Clean, PubMode::Ambig, PubMode::Ambig, PubMode::Gone])
         } else {
@@ -371,18 +407,42 @@ fn gen_scenario(rng: &mut Rng, n_signers: usize, thorough: bool) -> Scenario {
                 others.push(i);
             }
         }
-        events.push(Ev::Tick(Tick { epoch, imm, block, lag, down, reg, pubm, others }));
+        events.push(Ev::Tick(Tick { epoch, imm, block, lag, down, reg, pubm, reg_fail_code, pub_fail_code, pub_ok_code, others }));
         ticks += 1;
     }
-    let tx_step = if rng.chance(1, 3) { Some(*rng.pick(&[15u64, 30, 40])) } else { None };
-    let kind = if tx_step.is_some() { format!("{kind}+tx") } else { kind.to_string() };
-    Scenario { kind, tx_step, e0, lucky, events }
+    // signed entity configuration per network-configuration epoch: CardanoTransactions off / on for
+    // the whole run / switched on (and possibly off again) at some epoch, the step possibly changing
+    let mut cfgs: Vec<Option<u64>> = vec![None; N_CFG];
+    let kind = match rng.below(6) {
+        0 | 1 | 2 => kind.to_string(),
+        3 => {
+            let step = *rng.pick(&[15u64, 30, 40]);
+            cfgs.iter_mut().for_each(|c| *c = Some(step));
+            format!("{kind}+tx")
+        }
+        _ => {
+            let on = rng.range(e0, e0 + 4) as usize;
+            let off = if rng.chance(1, 2) { N_CFG } else { on + rng.range(1, 3) as usize };
+            let change = on + rng.range(1, 3) as usize;
+            let (s1, s2) = (*rng.pick(&[15u64, 30, 40]), *rng.pick(&[15u64, 30, 40]));
+            for (k, c) in cfgs.iter_mut().enumerate() {
+                if k >= on && k < off {
+                    *c = Some(if k < change { s1 } else { s2 });
+                }
+            }
+            format!("{kind}+tx-switch")
+        }
+    };
+    Scenario { kind, cfgs, e0, lucky, events }
 }
 
 fn params(lucky: bool) -> ProtocolParameters {
     // phi_f = 1 wins every lottery; 1e-15 practically never (< 2e-14 per signature)
     ProtocolParameters { k: 3, m: 10, phi_f: if lucky { 1.0 } else { 1e-15 } }
 }
+
+/// number of configuration epochs described per scenario (chain epochs stay below it)
+const N_CFG: usize = 40;
 
 fn allowed(tx: bool) -> BTreeSet<D> {
     let mut s = BTreeSet::from([D::MithrilStakeDistribution, D::CardanoStakeDistribution, D::CardanoDatabase]);
@@ -391,11 +451,20 @@ fn allowed(tx: bool) -> BTreeSet<D> {
     }
     s
 }
-fn tx_config(sc: &Scenario) -> Option<CardanoTransactionsSigningConfig> {
-    sc.tx_step.map(|step| CardanoTransactionsSigningConfig {
+fn tx_config(sc: &Scenario, cfg_epoch: u64) -> Option<CardanoTransactionsSigningConfig> {
+    sc.cfgs.get(cfg_epoch as usize).copied().flatten().map(|step| CardanoTransactionsSigningConfig {
         security_parameter: BlockNumberOffset(0),
         step: BlockNumber(step),
     })
+}
+/// the signed entity configuration the network configuration of `cfg_epoch` describes
+fn entity_config(sc: &Scenario, cfg_epoch: u64) -> SignedEntityConfig {
+    let tx = tx_config(sc, cfg_epoch);
+    SignedEntityConfig {
+        allowed_discriminants: allowed(tx.is_some()),
+        cardano_transactions_signing_config: tx,
+        cardano_blocks_transactions_signing_config: None,
+    }
 }
 
 fn entity_obs(e: &SignedEntityType) -> String {
@@ -451,7 +520,34 @@ struct SeenReg {
     tick: usize,
     chain_epoch: u64,
     rec_epoch: u64,
-    recorded: bool,
+    /// mode the aggregator answered in: Open / Drop = acknowledged (201); Open / Ambig = recorded
+    mode: RegMode,
+    /// verification key carried by the request
+    vk: String,
+}
+impl SeenReg {
+    fn acked(&self) -> bool {
+        matches!(self.mode, RegMode::Open | RegMode::Drop)
+    }
+    fn recorded(&self) -> bool {
+        self.mode == RegMode::Open
+    }
+}
+/// what the harness reads after a tick, besides the aggregator's logs
+#[derive(Clone, Debug)]
+struct TickRec {
+    i: usize,
+    epoch: u64,
+    imm: u64,
+    block: u64,
+    /// aggregator reachable, up to date, registration round open
+    reg_good: bool,
+    pre: SignerState,
+    post: SignerState,
+    /// the signer's protocol initializer store after the tick: epoch -> verification key
+    stored: BTreeMap<u64, String>,
+    /// the registration of our party the aggregator holds after the tick: epoch -> verification key
+    agg_holds: BTreeMap<u64, String>,
 }
 
 struct RunOut {
@@ -464,6 +560,9 @@ struct RunOut {
     n_epochs: usize,
     /// (event index, state after the event)
     states: Vec<(usize, SignerState)>,
+    ticks: Vec<TickRec>,
+    /// index of every restart event
+    restarts: Vec<usize>,
 }
 
 struct Ctx {
@@ -482,7 +581,7 @@ fn to_part(s: &SignerWithStake) -> SignerMessagePart {
 fn identify_keys(
     ctx: &Ctx,
     store: &VStore,
-    sent: &BTreeMap<u64, SignerMessagePart>,
+    sent: &BTreeMap<u64, SignerMessagePart>, // acknowledged registrations of our party by recording epoch
     lucky: &[bool],
     msg: &RegisterSignatureMessageHttp,
 ) -> Vec<u64> {
@@ -491,9 +590,8 @@ fn identify_keys(
     let single = SingleSignature::new(msg.party_id.clone(), psig, msg.won_indexes.clone());
     for (r, mine) in sent {
         let mut parts: Vec<SignerMessagePart> = store.regs.get(r).cloned().unwrap_or_default();
-        if !parts.iter().any(|p| p.party_id == mine.party_id) {
-            parts.push(mine.clone());
-        }
+        parts.retain(|p| p.party_id != mine.party_id);
+        parts.push(mine.clone());
         let with_stake: Vec<SignerWithStake> = match parts
             .into_iter()
             .map(|p| {
@@ -540,13 +638,14 @@ async fn run_impl(ctx: &Ctx, sc: &Scenario, work: PathBuf) -> RunOut {
     {
         let mut s = store.write().await;
         for (e, l) in sc.lucky.iter().enumerate() {
+            let cfg = entity_config(sc, e as u64);
             s.markers.insert(
                 Epoch(e as u64),
                 MithrilNetworkConfigurationForEpoch {
                     protocol_parameters: params(*l),
-                    enabled_signed_entity_types: allowed(sc.tx_step.is_some()),
+                    enabled_signed_entity_types: cfg.allowed_discriminants,
                     signed_entity_types_config: SignedEntityTypeConfiguration {
-                        cardano_transactions: tx_config(sc),
+                        cardano_transactions: cfg.cardano_transactions_signing_config,
                         cardano_blocks_transactions: None,
                     },
                 },
@@ -559,16 +658,11 @@ async fn run_impl(ctx: &Ctx, sc: &Scenario, work: PathBuf) -> RunOut {
         }
     }
     set_shared_store(store.clone());
-    let config = SignedEntityConfig {
-        allowed_discriminants: allowed(sc.tx_step.is_some()),
-        cardano_transactions_signing_config: tx_config(sc),
-        cardano_blocks_transactions_signing_config: None,
-    };
     let my_party = ctx.signers[0].party_id.clone();
 
     let (mut epoch, mut imm, mut block) = (sc.e0, 1u64, 100u64);
     let mut tester = init_tester(&work, ctx, &time_point(epoch, imm, block)).await;
-    let mut out = RunOut { per_event: vec![], sigs: vec![], regs: vec![], marks: vec![], critical: None, n_epochs: 1, states: vec![] };
+    let mut out = RunOut { per_event: vec![], sigs: vec![], regs: vec![], marks: vec![], critical: None, n_epochs: 1, states: vec![], ticks: vec![], restarts: vec![] };
     let mut sent: BTreeMap<u64, SignerMessagePart> = BTreeMap::new();
     let (mut sig_seen, mut reg_seen) = (0usize, 0usize);
 
@@ -581,7 +675,9 @@ async fn run_impl(ctx: &Ctx, sc: &Scenario, work: PathBuf) -> RunOut {
                     tester.increase_immutable(imm - 1, imm).await.expect("restore immutable number");
                 }
                 let st = tester.verif_state().await;
-                out.per_event.push(coq::ol(&[state_obs(&st), coq::ol(&[]), coq::ol(&[]), coq::ol(&[])]));
+                out.restarts.push(i);
+                out.per_event.push(coq::ol(&[state_obs(&st), coq::ol(&[]), coq::ol(&[]), coq::ol(&[]), coq::ol(&[]),
+                    coq::ol(&[coq::ol(&[]), coq::ol(&[])])]));
             }
             Ev::Tick(t) => {
                 // chain progress
@@ -608,6 +704,9 @@ async fn run_impl(ctx: &Ctx, sc: &Scenario, work: PathBuf) -> RunOut {
                     s.down = t.down;
                     s.reg_mode = t.reg;
                     s.pub_mode = t.pubm;
+                    s.reg_fail_code = t.reg_fail_code;
+                    s.pub_fail_code = t.pub_fail_code;
+                    s.pub_ok_code = t.pub_ok_code;
                     let rec = s.agg_epoch + SPEC_RECORDING;
                     for &o in &t.others {
                         let part = to_part(&ctx.signers[o]);
@@ -654,16 +753,64 @@ async fn run_impl(ctx: &Ctx, sc: &Scenario, work: PathBuf) -> RunOut {
                 }
                 sig_seen = s.sig_log.len();
                 let mut reg_obs = vec![];
-                for (rec, part, recorded) in &s.reg_log[reg_seen..] {
+                let mut req_obs = vec![];
+                for (rec, part, mode) in &s.reg_log[reg_seen..] {
                     if part.party_id == my_party {
-                        sent.insert(*rec, part.clone());
-                        reg_obs.push(coq::on(*rec));
-                        out.regs.push(SeenReg { tick: i, chain_epoch: epoch, rec_epoch: *rec, recorded: *recorded });
+                        let seen = SeenReg { tick: i, chain_epoch: epoch, rec_epoch: *rec, mode: *mode,
+                            vk: part.verification_key_for_concatenation.clone() };
+                        if seen.acked() {
+                            sent.insert(*rec, part.clone());
+                            reg_obs.push(coq::on(*rec));
+                        }
+                        req_obs.push(coq::on(*rec));
+                        req_obs.push(coq::oz(match mode {
+                            RegMode::Open => 0,
+                            RegMode::Closed => 1,
+                            RegMode::Fail => 2,
+                            RegMode::Drop => 3,
+                            RegMode::Ambig => 4,
+                        }));
+                        out.regs.push(seen);
                     }
                 }
                 reg_seen = s.reg_log.len();
+                let agg_holds: BTreeMap<u64, String> = s
+                    .regs
+                    .iter()
+                    .filter_map(|(e, l)| {
+                        l.iter().find(|p| p.party_id == my_party).map(|p| (*e, p.verification_key_for_concatenation.clone()))
+                    })
+                    .collect();
                 drop(s);
+                // the signer's protocol initializer store
+                let stored: BTreeMap<u64, String> = tester
+                    .verif_protocol_initializer_store()
+                    .get_last_protocol_initializer(1000)
+                    .await
+                    .expect("protocol initializer store query")
+                    .into_iter()
+                    .map(|(e, init)| (*e, vk_hex(&init)))
+                    .collect();
+                let store_obs = coq::ol(&[
+                    coq::ol(&(0..epoch + 3).map(|k| coq::ob(stored.contains_key(&k))).collect::<Vec<_>>()),
+                    coq::ol(&(0..epoch + 3)
+                        .map(|k| coq::ob(stored.get(&k).is_some_and(|vk| agg_holds.get(&k).is_some_and(|a| same_key(a, vk)))))
+                        .collect::<Vec<_>>()),
+                ]);
+                out.ticks.push(TickRec {
+                    i,
+                    epoch,
+                    imm,
+                    block,
+                    reg_good: t.lag == 0 && !t.down && t.reg == RegMode::Open,
+                    pre: pre_state.clone(),
+                    post: post_state.clone(),
+                    stored,
+                    agg_holds,
+                });
                 // which of this time point's entities are marked as signed
+                // (under the configuration in force for the chain epoch: the one of epoch - 1)
+                let config = entity_config(sc, epoch.saturating_sub(SPEC_RETRIEVAL_BACK));
                 let mark_obs = match config.list_allowed_signed_entity_types(&time_point(epoch, imm, block)) {
                     Ok(entities) => {
                         let unsigned = tester
@@ -683,12 +830,28 @@ async fn run_impl(ctx: &Ctx, sc: &Scenario, work: PathBuf) -> RunOut {
                     }
                     Err(_) => coq::ol(&[]),
                 };
-                out.per_event.push(coq::ol(&[state_obs(&post_state), coq::ol(&sig_obs), coq::ol(&reg_obs), mark_obs]));
+                out.per_event.push(coq::ol(&[state_obs(&post_state), coq::ol(&sig_obs), coq::ol(&reg_obs), mark_obs,
+                    coq::ol(&req_obs), store_obs]));
             }
         }
     }
     drop(tester);
     out
+}
+
+/// verification key of a stored protocol initializer, in the form registrations carry it
+fn vk_hex(init: &ProtocolInitializer) -> String {
+    let vk: ProtocolSignerVerificationKeyForConcatenation = init.verification_key_for_concatenation().into();
+    vk.to_json_hex().unwrap_or_else(|e| format!("unencodable key: {e}"))
+}
+/// same verification key (compared as keys when both decode, else as text)
+fn same_key(a: &str, b: &str) -> bool {
+    let ka: Result<ProtocolSignerVerificationKeyForConcatenation, _> = a.to_string().try_into();
+    let kb: Result<ProtocolSignerVerificationKeyForConcatenation, _> = b.to_string().try_into();
+    match (ka, kb) {
+        (Ok(x), Ok(y)) => x == y,
+        _ => a == b,
+    }
 }
 
 fn signing_epoch(e: &SignedEntityType) -> u64 {
@@ -737,12 +900,24 @@ fn judge(sc: &Scenario, out: &RunOut) -> Result<(), String> {
             return Err(format!("{:?} published during epoch {} (event {})", s.entity, s.chain_epoch, s.tick));
         }
         // (c) the registration for that key reached the aggregator earlier, during epoch signing_epoch - 2
-        match out.regs.iter().find(|r| r.rec_epoch == s.key_epochs[0]) {
-            Some(r) if r.tick < s.tick && r.recorded && r.chain_epoch + SPEC_SIGNING == e_sign => {}
+        match out.regs.iter().find(|r| r.acked() && r.rec_epoch == s.key_epochs[0]) {
+            Some(r) if r.tick < s.tick && r.recorded() && r.chain_epoch + SPEC_SIGNING == e_sign => {}
             other => {
                 return Err(format!(
                     "signature for {:?} at event {} without a prior recorded registration made during epoch {}: {:?}",
-                    s.entity, s.tick, e_sign as i64 - SPEC_SIGNING as i64, other.map(|r| (r.tick, r.chain_epoch, r.rec_epoch, r.recorded))));
+                    s.entity, s.tick, e_sign as i64 - SPEC_SIGNING as i64, other.map(|r| (r.tick, r.chain_epoch, r.rec_epoch, r.mode))));
+            }
+        }
+        // (k) only entities of the current time point under the signed entity configuration in force for
+        //     the epoch (the network configuration of epoch - 1): the aggregator opens no other message
+        if let Some(t) = out.ticks.iter().find(|t| t.i == s.tick) {
+            let config = entity_config(sc, t.epoch.saturating_sub(SPEC_RETRIEVAL_BACK));
+            if let Ok(entities) = config.list_allowed_signed_entity_types(&time_point(t.epoch, t.imm, t.block)) {
+                if !entities.contains(&s.entity) {
+                    return Err(format!(
+                        "signature published for {:?} (event {}), which is not an entity of the time point under the configuration in force for epoch {}: {:?}",
+                        s.entity, s.tick, t.epoch, entities));
+                }
             }
         }
         // (d) only from ReadyToSign(current epoch), staying there
@@ -764,7 +939,7 @@ fn judge(sc: &Scenario, out: &RunOut) -> Result<(), String> {
     for (i, st) in &out.states {
         if let SignerState::ReadyToSign { epoch } = st {
             let ok = out.regs.iter().any(|r| {
-                r.tick < *i && r.recorded && r.rec_epoch + SPEC_RETRIEVAL_BACK == **epoch && r.chain_epoch + SPEC_SIGNING == **epoch
+                r.tick < *i && r.recorded() && r.rec_epoch + SPEC_RETRIEVAL_BACK == **epoch && r.chain_epoch + SPEC_SIGNING == **epoch
             });
             if !ok {
                 return Err(format!("ReadyToSign({}) after event {i} although no registration made during epoch {} was recorded by the aggregator",
@@ -776,6 +951,115 @@ fn judge(sc: &Scenario, out: &RunOut) -> Result<(), String> {
     for r in &out.regs {
         if r.rec_epoch != r.chain_epoch + SPEC_RECORDING {
             return Err(format!("registration sent during epoch {} for recording epoch {} (event {})", r.chain_epoch, r.rec_epoch, r.tick));
+        }
+    }
+    // (j) at most one acknowledged registration per recording epoch: the key material of an epoch is
+    //     registered once (a second acknowledged request would replace the key other parties already use)
+    for (n, r) in out.regs.iter().enumerate() {
+        if r.acked() {
+            if let Some(q) = out.regs[..n].iter().find(|q| q.acked() && q.rec_epoch == r.rec_epoch) {
+                return Err(format!("two acknowledged registrations for recording epoch {} (events {} and {})", r.rec_epoch, q.tick, r.tick));
+            }
+        }
+    }
+    let acked_reg = |rec: u64, upto: usize| out.regs.iter().find(|r| r.acked() && r.rec_epoch == rec && r.tick <= upto);
+    for (n, t) in out.ticks.iter().enumerate() {
+        // (h) key agreement: every protocol initializer the signer has stored is the key of a registration
+        //     the aggregator acknowledged for that epoch; unless the aggregator lost it (Drop: environment
+        //     fault), it is the registration the aggregator holds for our party
+        for (k, vk) in &t.stored {
+            match acked_reg(*k, t.i) {
+                Some(r) if same_key(&r.vk, vk) => {
+                    if r.recorded() && !t.agg_holds.get(k).is_some_and(|a| same_key(a, vk)) {
+                        return Err(format!(
+                            "after event {}: the aggregator recorded our registration for epoch {k} (event {}) but now holds {} for our party",
+                            t.i, r.tick, if t.agg_holds.contains_key(k) { "another key" } else { "nothing" }));
+                    }
+                }
+                Some(r) => {
+                    return Err(format!(
+                        "after event {}: the key stored for epoch {k} is not the key of the registration the aggregator acknowledged for that epoch (event {})",
+                        t.i, r.tick));
+                }
+                None => {
+                    return Err(format!(
+                        "after event {}: the signer stores key material for epoch {k} (state {}) although the aggregator never acknowledged a registration for that epoch",
+                        t.i, t.post));
+                }
+            }
+        }
+        // ... and a signer that left the unregistered state for epoch E holds key material for E+1
+        let registered_now = t.post == SignerState::ReadyToSign { epoch: Epoch(t.epoch) }
+            || t.post == SignerState::RegisteredNotAbleToSign { epoch: Epoch(t.epoch) };
+        if (matches!(t.post, SignerState::ReadyToSign { .. }) || matches!(t.post, SignerState::RegisteredNotAbleToSign { .. }))
+            && t.pre != t.post
+        {
+            let e = match &t.post {
+                SignerState::ReadyToSign { epoch } | SignerState::RegisteredNotAbleToSign { epoch } => **epoch,
+                _ => unreachable!(),
+            };
+            if !t.stored.contains_key(&(e + SPEC_RECORDING)) {
+                return Err(format!("event {}: the signer left the unregistered state ({}) without key material for epoch {}", t.i, t.post, e + SPEC_RECORDING));
+            }
+        }
+        // (i) registration progress.  A cycle is "good" when the aggregator is reachable, up to date and
+        //     its registration round is open.  (i1) a good cycle started in Unregistered(E) during epoch E,
+        //     (i2) the second of two consecutive good cycles of epoch E without a restart in between:
+        //     the signer is registered for E afterwards — the aggregator holds (or acknowledged and lost)
+        //     its registration for E+1 — and it is ReadyToSign(E) exactly when the aggregator recorded its
+        //     registration for E-1
+        let unreg_here = t.pre == SignerState::Unregistered { epoch: Epoch(t.epoch) };
+        let second_good = n > 0 && {
+            let p = &out.ticks[n - 1];
+            p.reg_good && p.epoch == t.epoch && !out.restarts.iter().any(|r| *r > p.i && *r < t.i)
+        };
+        if t.reg_good && (unreg_here || second_good) {
+            let why = if unreg_here { "a cycle started in Unregistered with the registration round open" } else { "two consecutive cycles with the registration round open" };
+            if !registered_now {
+                return Err(format!("event {}: after {why} during epoch {} the signer is in state {}", t.i, t.epoch, t.post));
+            }
+            match acked_reg(t.epoch + SPEC_RECORDING, t.i) {
+                None => {
+                    return Err(format!(
+                        "event {}: after {why} during epoch {} the signer is in state {} but the aggregator never acknowledged a registration of it for epoch {}",
+                        t.i, t.epoch, t.post, t.epoch + SPEC_RECORDING));
+                }
+                Some(r) if r.recorded() && !t.agg_holds.contains_key(&r.rec_epoch) => {
+                    return Err(format!("event {}: the aggregator does not hold the registration it recorded at event {}", t.i, r.tick));
+                }
+                _ => {}
+            }
+            let eligible = t.epoch >= SPEC_RETRIEVAL_BACK
+                && out.regs.iter().any(|r| r.recorded() && r.tick < t.i && r.rec_epoch + SPEC_RETRIEVAL_BACK == t.epoch);
+            let ready = t.post == SignerState::ReadyToSign { epoch: Epoch(t.epoch) };
+            if eligible && !ready {
+                return Err(format!(
+                    "event {}: the aggregator recorded our registration for epoch {} (signer set in force during epoch {}) but after {why} the signer is {}",
+                    t.i, t.epoch - SPEC_RETRIEVAL_BACK, t.epoch, t.post));
+            }
+        }
+        // (i3) signing progress: a cycle started in ReadyToSign(E) during epoch E, by a signer that also
+        //      registered during E-1 (key material acknowledged for E) and whose lottery is won, publishes
+        //      the first entity of the time point (configuration of epoch E-1) the aggregator has not
+        //      acknowledged yet
+        if t.pre == (SignerState::ReadyToSign { epoch: Epoch(t.epoch) })
+            && t.epoch >= SPEC_RETRIEVAL_BACK
+            && sc.lucky[(t.epoch - SPEC_RETRIEVAL_BACK) as usize]
+            && out.regs.iter().any(|r| r.acked() && r.tick < t.i && r.rec_epoch == t.epoch)
+        {
+            let config = entity_config(sc, t.epoch - SPEC_RETRIEVAL_BACK);
+            if let Ok(entities) = config.list_allowed_signed_entity_types(&time_point(t.epoch, t.imm, t.block)) {
+                let pending = entities.iter().find(|e| {
+                    !out.sigs.iter().any(|s| &s.entity == *e && s.tick < t.i && matches!(s.mode, PubMode::Ok | PubMode::Gone))
+                });
+                if let Some(x) = pending {
+                    if !out.sigs.iter().any(|s| s.tick == t.i && &s.entity == x) {
+                        return Err(format!(
+                            "event {}: ReadyToSign({}) with registered keys and a won lottery, {x:?} not yet acknowledged by the aggregator, but no signature for it was published in this cycle",
+                            t.i, t.epoch));
+                    }
+                }
+            }
         }
     }
     Ok(())
@@ -796,6 +1080,7 @@ fn coq_event(ev: &Ev) -> String {
                 RegMode::Closed => "RegClosed",
                 RegMode::Fail => "RegFail",
                 RegMode::Drop => "RegDrop",
+                RegMode::Ambig => "RegAmbig",
             },
             match t.pubm {
                 PubMode::Ok => "PubOk",
@@ -812,7 +1097,8 @@ fn desc_event(ev: &Ev) -> serde_json::Value {
         Ev::Restart => serde_json::json!("restart"),
         Ev::Tick(t) => serde_json::json!({
             "epoch": t.epoch, "imm": t.imm, "block": t.block, "agg_lag": t.lag, "down": t.down,
-            "reg": format!("{:?}", t.reg), "pub": format!("{:?}", t.pubm), "others": t.others
+            "reg": format!("{:?}", t.reg), "pub": format!("{:?}", t.pubm), "others": t.others,
+            "codes": [t.reg_fail_code, t.pub_fail_code, t.pub_ok_code]
         }),
     }
 }
@@ -853,16 +1139,19 @@ fn main() {
             id,
             kind: sc.kind.clone(),
             desc: serde_json::json!({
-                "initial_epoch": sc.e0, "cardano_transactions_step": sc.tx_step,
+                "initial_epoch": sc.e0,
+                "cardano_transactions_step_by_config_epoch": sc.cfgs.iter().take(20).collect::<Vec<_>>(),
                 "lucky_by_key_epoch": sc.lucky.iter().take(16).collect::<Vec<_>>(),
                 "events": sc.events.iter().map(desc_event).collect::<Vec<_>>(),
                 "signatures_received": out.sigs.iter().map(|s| serde_json::json!({
                     "event": s.tick, "entity": format!("{:?}", s.entity), "key_recorded_under": s.key_epochs, "mode": format!("{:?}", s.mode)})).collect::<Vec<_>>(),
             }),
             model: Some(format!(
-                "C20.Model.run_obs {} {} {} {}",
-                if sc.tx_step.is_some() { "[MSD; CSD; CDb; CTx]" } else { "[MSD; CSD; CDb]" },
-                coq::opt(sc.tx_step.map(|st| coq::pair(&coq::n(0), &coq::n(st)))),
+                "let off := ([MSD; CSD; CDb], @None (prod N N)) in let on_ s := ([MSD; CSD; CDb; CTx], Some (0%N, s)) in C20.Model.run_obs {} {} {}",
+                coq::list(&sc.cfgs.iter().map(|c| match c {
+                    None => "off".to_string(),
+                    Some(st) => format!("(on_ {})", coq::n(*st)),
+                }).collect::<Vec<_>>()),
                 coq::list(&sc.lucky.iter().map(|b| coq::b(*b)).collect::<Vec<_>>()),
                 coq::list(&sc.events.iter().map(|e| format!("({})", coq_event(e))).collect::<Vec<_>>())
             )),
